@@ -273,7 +273,27 @@ impl LightClientProtocol {
         Ok(())
     }
 
+    /// Checks that the total difficulties of the headers can be calculated.
+    pub(crate) fn check_total_difficulty_for_headers<'a, T: Iterator<Item = &'a VerifiableHeader>>(
+        &self,
+        headers: T,
+    ) -> Result<(), Status> {
+        for header in headers {
+            if header.checked_total_difficulty().is_none() {
+                let header = header.header();
+                let errmsg = format!(
+                    "the total difficulty of block#{} (hash: {:#x}) is overflowed",
+                    header.number(),
+                    header.hash()
+                );
+                return Err(StatusCode::InvalidTotalDifficulty.with_context(errmsg));
+            }
+        }
+        Ok(())
+    }
+
     fn check_verifiable_header(&self, verifiable_header: &VerifiableHeader) -> Result<(), Status> {
+        self.check_total_difficulty_for_headers(Some(verifiable_header).into_iter())?;
         let header = verifiable_header.header();
         // Check PoW
         if !self.consensus.pow_engine().verify(&header.data()) {
